@@ -851,7 +851,7 @@ class Process(StateMachine, persistence.Savable, metaclass=ProcessStateMachineMe
     def on_playing(self) -> None:
         """The process was played."""
         # Done being paused
-        if self._paused is not None:
+        if self._paused is not None and not self._paused.done():
             self._paused.set_result(True)
         self._paused = None
 
